@@ -241,6 +241,13 @@ def eval_maxsize(case):
     ctxs = HS.ctx_grid(name)[0]
     p = ("pw" * (n // 2 + 1))[:n]
     key = f"C05|{name}|maxsize:{via}:{n}"
+    shape = case.get("shape")
+    if shape:
+        # over the maximum under EVERY reading of 'size' (more than 4096 bytes, and not 4096 or fewer characters):
+        # undecodable bytes have no character count but their own; the multi-byte ones exceed it in characters too
+        p = {"bytes_ff": b"\xff" * n, "bytes_80_tail": b"a" * 4000 + b"\x80" * (n - 4000), "bytes_utf8_chars": "é".encode() * n,
+             "text_multibyte": "é" * n, "bytes_ascii": b"a" * n, "bytes_truncated_utf8": b"\xe2\x82" * n}[shape]
+        key += ":" + shape
     try:
         if via == "hasher":
             Hc = H.using(**kw) if kw else H
@@ -468,6 +475,12 @@ def run(ctx):
                 vias = ("hasher",) if n != 4097 else vias
             for via in vias:
                 cases.append({"part": "maxsize", "hasher": name, "n": n, "via": via})
+        # contents other than ASCII text above the maximum (n counts the units of the shape)
+        for shape, ns in (("bytes_ff", (4097, 100000)), ("bytes_80_tail", (4097,)), ("bytes_utf8_chars", (4097,)), ("text_multibyte", (4097,)),
+                          ("bytes_ascii", (4097,)), ("bytes_truncated_utf8", (4097,))):
+            for n in ns:
+                for via in ("hasher", "context", "context_vau"):
+                    cases.append({"part": "maxsize", "hasher": name, "n": n, "via": via, "shape": shape})
     # ---- part sensitivity
     lens = (1, 2, 8, 9, 16, 17, 24, 64, 73, 128, 255, 1000, 4096) if ctx.quick else (1, 2, 8, 9, 16, 17, 33, 56, 64, 72, 73, 128, 129, 255, 256, 1000, 4095, 4096)
     for name in HS.usable_names():
